@@ -248,12 +248,15 @@ type Residual struct {
 	Kind string // IsInBounds | IsSliceInBounds
 }
 
-var bceRe = regexp.MustCompile(`^(.+?):(\d+):(\d+): Found (IsInBounds|IsSliceInBounds)`)
+var bceRe = regexp.MustCompile(`^(.+?):(\d+):(\d+): (?:Found|Disproved) (IsInBounds|IsSliceInBounds)`)
 
 // CompilerResiduals runs the go compiler with check_bce debugging on the module
 // and returns the positions of all bounds checks that remain.
 func CompilerResiduals(dir string, overlayJSON string) ([]Residual, error) {
-	args := []string{"build", "-gcflags=-d=ssa/check_bce/debug=1"}
+	// check_bce lists the bounds checks that remain; the prove pass also removes a check it
+	// proves ALWAYS FAILS (it becomes an unconditional panic), which check_bce does not list, so
+	// the "Disproved Is(Slice)InBounds" lines of the prove pass are collected as well.
+	args := []string{"build", "-gcflags=-d=ssa/check_bce/debug=1,ssa/prove/debug=1"}
 	if overlayJSON == "" {
 		overlayJSON = OverlayJSON
 	}
@@ -284,12 +287,16 @@ func CompilerResiduals(dir string, overlayJSON string) ([]Residual, error) {
 		f = strings.TrimPrefix(f, "./")
 		l, _ := strconv.Atoi(m[2])
 		c, _ := strconv.Atoi(m[3])
-		k := fmt.Sprintf("%s:%d:%d:%s", f, l, c, m[4])
+		kind := m[4]
+		if strings.Contains(line, ": Disproved ") {
+			kind = "Disproved" + kind
+		}
+		k := fmt.Sprintf("%s:%d:%d:%s", f, l, c, kind)
 		if seen[k] {
 			continue
 		}
 		seen[k] = true
-		res = append(res, Residual{File: f, Line: l, Col: c, Kind: m[4]})
+		res = append(res, Residual{File: f, Line: l, Col: c, Kind: kind})
 	}
 	sort.Slice(res, func(i, j int) bool {
 		a, b := res[i], res[j]
